@@ -710,6 +710,64 @@ fn subjects(ctx: &Ctx) -> Vec<Subject> {
         ];
         v.push(Subject { name: "synthetic-gsub-latn-only-no-dflt".into(), data, filter: None, ops });
     }
+    // 4c2. GPOS in which two scripts each have a feature record tagged 'kern' of their own (lookup 0: advance of glyph 1
+    //      -50 under cyrl, lookup 1: -80 under latn): which lookups a feature tag stands for depends on script and language,
+    //      so nothing keyed by the tag alone may be kept between calls
+    {
+        let cmap = [(b'a' as u32, 1u16), (b'b' as u32, 2), (0x25CC, 7)];
+        let mut sl = W::new();
+        sl.u16(2).tag(tag::CYRL).u16(14).tag(tag::LATN).u16(26);
+        sl.u16(4).u16(0).u16(0).u16(0xFFFF).u16(1).u16(0);
+        sl.u16(4).u16(0).u16(0).u16(0xFFFF).u16(1).u16(1);
+        let sl = sl.done();
+        let mut fl = W::new();
+        fl.u16(2).tag(tag::KERN).u16(14).tag(tag::KERN).u16(20);
+        fl.u16(0).u16(1).u16(0).u16(0).u16(1).u16(1);
+        let fl = fl.done();
+        let mut ll = W::new();
+        ll.u16(2).u16(6).u16(28);
+        for val in [-50i16, -80] {
+            ll.u16(1).u16(0).u16(1).u16(8); // SinglePos, flag 0, one subtable at 8
+            ll.u16(1).u16(8).u16(0x0004).i16(val).u16(1).u16(1).u16(1); // format 1, coverage at 8, XAdvance; Coverage: [glyph 1]
+        }
+        let ll = ll.done();
+        let mut g = W::new();
+        g.u16(1).u16(0).u16(10).u16((10 + sl.len()) as u16).u16((10 + sl.len() + fl.len()) as u16);
+        g.bytes(&sl).bytes(&fl).bytes(&ll);
+        let data = otmodel::tables::minimal_font(8, &cmap, &[(tag::GPOS, g.done())]);
+        let shape = |script: u32, kerning: bool| Op::Shape { text: "ab", script, lang: None, feats: FeatSel::Mask(dflt), tuple: None, kerning };
+        let ops = vec![shape(tag::LATN, true), shape(tag::CYRL, true), shape(tag::GREK, true), shape(tag::LATN, false), shape(tag::CYRL, false), Op::HAdvance(1)];
+        v.push(Subject { name: "synthetic-gpos-two-scripts-with-a-kern-feature-of-their-own".into(), data, filter: None, ops });
+    }
+    // 4c3. a feature that lists a lookup index beyond the lookup list (one lookup; 'smcp' names lookup 1, 'c2sc' lookup
+    //      0xFFFF): whatever such a feature yields - an error or nothing - it yields it whether or not the last lookup of the
+    //      list was used before
+    {
+        let cmap = [(b'a' as u32, 1u16), (b'b' as u32, 2), (0x25CC, 7)];
+        let mut sl = W::new();
+        sl.u16(1).tag(tag::LATN).u16(8);
+        sl.u16(4).u16(0).u16(0).u16(0xFFFF).u16(3).u16(0).u16(1).u16(2);
+        let mut gsub = gsub_one_lookup_per_feature(&sl.done(), &[otmodel::tag(b"c2sc"), tag::LIGA, tag::SMCP]);
+        // rewrite: keep only lookup 0 in the lookup list, liga -> 0, smcp -> 1, c2sc -> 0xFFFF
+        let flo = u16::from_be_bytes([gsub[6], gsub[7]]) as usize;
+        let llo = u16::from_be_bytes([gsub[8], gsub[9]]) as usize;
+        for (k, idx) in [(0usize, 0xFFFFu16), (1, 0), (2, 1)] {
+            let fo = flo + u16::from_be_bytes([gsub[flo + 2 + 6 * k + 4], gsub[flo + 2 + 6 * k + 5]]) as usize;
+            gsub[fo + 4..fo + 6].copy_from_slice(&idx.to_be_bytes());
+        }
+        gsub[llo..llo + 2].copy_from_slice(&1u16.to_be_bytes());
+        let data = otmodel::tables::minimal_font(8, &cmap, &[(tag::GSUB, gsub)]);
+        let shape = |feats: FeatSel| Op::Shape { text: "ab", script: tag::LATN, lang: None, feats, tuple: None, kerning: true };
+        let ops = vec![
+            shape(FeatSel::Custom(vec![tag::LIGA])),
+            shape(FeatSel::Custom(vec![tag::SMCP])),
+            shape(FeatSel::Custom(vec![otmodel::tag(b"c2sc")])),
+            shape(FeatSel::Mask(dflt)),
+            shape(FeatSel::Mask(smcp)),
+            shape(FeatSel::Mask(FeatureMask::C2SC.bits())),
+        ];
+        v.push(Subject { name: "synthetic-gsub-feature-names-a-lookup-beyond-the-list".into(), data, filter: None, ops });
+    }
     // 4d. a script with a LangSysRecord tagged 'dflt' that differs from its DefaultLangSys: language None, Some(DFLT),
     //     Some('dflt') and an unknown language share or do not share cache entries - whatever they resolve to, the
     //     answer may not depend on which was asked first
